@@ -77,10 +77,10 @@ impl Case {
         );
         config.no_rir_tals = true;
         config.extra_tals_dir = Some(self.dir.join("tals"));
+        // The small dependency-free sibling binary (starts in ~1 ms).
         config.rsync_command = std::env::current_exe().unwrap()
-            .to_string_lossy().into_owned();
+            .with_file_name("fakersync").to_string_lossy().into_owned();
         config.rsync_args = Some(vec![
-            "--aux".into(), "fake-rsync".into(),
             self.dir.to_string_lossy().into_owned(),
         ]);
         config.disable_rrdp = true;
